@@ -12,7 +12,9 @@ kind of refusal).  The driver writes the chunks, opens the file with ELFFile and
   * the bytes of dwarfinfo.debug_info_sec.stream after get_dwarf_info(relocate_dwarf_sections=True) with
     the machine's buffer (attributed per relocated field; bytes outside every field separately), or the
     raised exception class with ELFRelocationError;
-  * the same stream with relocate_dwarf_sections=False with the section's original bytes.
+  * the same stream with relocate_dwarf_sections=False with the section's original bytes;
+  * mode loads: ONE ELFFile asked 2-3 times, every sequence of relocate_dwarf_sections flags: each call's stream with the answer
+    the spec's load machine gives for that call's flag (relocated buffer / ELFRelocationError / original bytes).
 RELR cases (modes relr / relrset) carry an image with one SHT_RELR section and the address sequence the
 RELR machine yields; compared with RelrRelocationSection.iter_relocations / num_relocations /
 get_relocation.  Dynamic cases (mode dyn) carry an ET_DYN image whose REL / RELA / JMPREL / RELR tables are named by the
@@ -240,6 +242,40 @@ def _twotabs(case, data, ELFFile, bad):
             if got != exp:
                 bad('twotabs.apply', exp if isinstance(exp, str) else list(exp), got if isinstance(got, str) else list(got),
                     tag='%s:%s:%s' % (mname, name, 'first' if order[0][0] == name else 'second'))
+
+
+def _loads(case, data, ELFFile, bad):
+    """Mode loads: ONE ELFFile asked for its DWARF several times, each time with its own relocate_dwarf_sections flag.  Per call
+    the spec says which answer is due (<<flag, refusal, "orig" | "bytes" | "none">>); an answer handed out earlier keeps its bytes."""
+    mname = '%s/%d' % (MACH.get(case['machine'], str(case['machine'])), case['cls'])
+    fl = 'RELA' if case['rela'] else 'REL'
+    seq = ''.join('T' if c[0] else 'F' for c in case['calls'])
+    ef = ELFFile(io.BytesIO(data))
+    views = []
+    for i, (flag, err, ref) in enumerate(case['calls']):
+        tag = '%s:%s' % (seq[:i + 1], 'refusal' if case['err'] else 'ok')       # the calls so far, this one last
+        try:
+            di = ef.get_dwarf_info(relocate_dwarf_sections=flag)
+            got = di.debug_info_sec.stream.getvalue()
+        except Exception as ex:
+            di, got = None, {'exc': type(ex).__name__, 'msg': str(ex)[:120]}
+        if err:
+            if not (isinstance(got, dict) and got['exc'] == 'ELFRelocationError'):
+                bad('loads.error', 'ELFRelocationError', got if isinstance(got, dict) else 'no exception', tag=tag,
+                    more={'call': i, 'calls': seq, 'table': '%s:%s' % (mname, fl)})
+            continue
+        want = bytes(case[ref])
+        if got != want:
+            bad('loads.bytes', {'call': i, 'flag': flag, 'section': list(want)}, got if isinstance(got, dict) else
+                {'section': list(got), 'equals': 'relocated' if got == bytes(case['bytes']) else 'original' if got == bytes(case['orig']) else 'neither'},
+                tag=tag, more={'calls': seq, 'table': '%s:%s:%s' % (mname, case['sub'], fl)})
+            return
+        views.append((i, di, want))
+    for i, di, want in views:
+        if di.debug_info_sec.stream.getvalue() != want:
+            bad('loads.view_disturbed', {'call': i, 'section': list(want)}, {'section': list(di.debug_info_sec.stream.getvalue())},
+                tag=seq, more={'calls': seq, 'table': '%s:%s:%s' % (mname, case['sub'], fl)})
+            return
 
 
 # ------------------------------------------------------------------------------------------ RELR
@@ -505,7 +541,7 @@ def check(run):
     run.rule = ('G cases = finished states of the Reloc machine: decode tables (<= MaxEntries entries out of 6 per class x 6 '
                 'class/order/machine x REL/RELA), apply images (one per table row x flavour x class x order x r_addend: 49 '
                 'relocations = 7 in-place x 7 symbol values), refusal images (unsupported type / flavour / symbol index), RELR '
-                'streams, RELR encodings of address sets, images with dynamic-tag tables; T events = clusters of corpus relocations; non-trivial = table '
+                'streams, RELR encodings of address sets, images with dynamic-tag tables, flag sequences of 2-3 loads of one opened file; T events = clusters of corpus relocations; non-trivial = table '
                 'with >= 1 entry or RELR stream with >= 1 bitmap; distinct by emitted image')
     run.assumptions += ['relocated fields lie inside the section; sections of a relocatable object have address 0',
                         'symbols are absolute STT_NOTYPE symbols (no ARM T bit); MIPS64 composed relocations are not applied',
@@ -514,19 +550,24 @@ def check(run):
                         'r_info of a MIPS64 entry = the number its eight info bytes denote in field order (sym, ssym, type3, type2, type), '
                         'i.e. what the r_info xword holds in a big-endian object']
     cfg = 'Reloc_quick' if run.tier == 'quick' else 'Reloc_thorough'
-    res = run.tlc('Reloc', cfg)
+    from concurrent.futures import ThreadPoolExecutor
+    with ThreadPoolExecutor(max_workers=1) as ex:
+        fut = ex.submit(run.tlc, 'Reloc', 'Reloc_loads', None, 2)          # the call-sequence mode: a small run beside the main one
+        res = run.tlc('Reloc', cfg)
+        res_loads = fut.result()
     seen = set()
     stats = {'applied': 0, 'refused': 0, 'decode_entries': 0, 'relr_addresses': 0, 'dynamic_tables': 0}
     bymode = {}
-    for case in _assembled(run.cases(res.out)):
+    import itertools
+    for case in itertools.chain(_assembled(run.cases(res.out)), run.cases(res_loads.out)):
         mode = case['mode']
-        key = core.digest([mode, case['chunks']])
+        key = core.digest([mode, case['chunks'], case.get('calls')])
         if key in seen:
             continue
         seen.add(key)
         data = concretise(case['chunks'])
         table = mode in ('decode', 'apply', 'errors')
-        nontriv = bool(case['entries']) if table else bool(case['view']['present']) if mode == 'dyn' else True if mode == 'twotabs' \
+        nontriv = bool(case['entries']) if table else bool(case['view']['present']) if mode == 'dyn' else True if mode in ('twotabs', 'loads') \
             else any(w[0] % 2 for w in case['words'])
         run.count(key, nontrivial=nontriv)
         bymode[mode] = bymode.get(mode, 0) + 1
@@ -555,6 +596,9 @@ def check(run):
                     _apply(run, case, data, ELFFile, bad, stats)
             elif mode == 'twotabs':
                 _twotabs(case, data, ELFFile, bad)
+            elif mode == 'loads':
+                _loads(case, data, ELFFile, bad)
+                stats['load_calls'] = stats.get('load_calls', 0) + len(case['calls'])
             elif mode == 'dyn':
                 _dyn(run, case, ef, bad)
                 stats['dynamic_tables'] += 2 * len(case['view']['present'])
